@@ -3,23 +3,30 @@ package main
 // Exporter histories shared by C02 / C08 / C09: a real ExportingProcess over TCP or UDP to a
 // listener owned by the harness. Case syntax:
 //
-//	<tcp|udp> <obsDomain> <seq0> <full|dig> { S <set ops> ; }*
+//	<tcp|udp> <obsDomain> <seq0> <full|dig> { S <set ops> ; | C <k> <set ops> ; | W }*
 //
-// Each "S" builds a fresh set with the builder operations (setops.go) and calls SendSet.
+// Each "S" builds a fresh set with the builder operations (setops.go) and calls SendSet; "C k"
+// applies the operations to the set object of the k-th "S" (as it was left: reused with or
+// without ResetSet) and calls SendSet on it again; the operations AS / M / G share and change
+// element objects and call GetBuffer (setops.go); "W" waits for the template refresh of a UDP
+// exporter (the exporter of such a case is created with TempRefTimeout = 1 s).
 // Observation per send: r=ok:<n> | r=err:<class> | r=panic, the exact bytes that arrived at the
 // peer socket for that call (w=..., export time zeroed after it was checked against the
 // harness's own clock readings: t=ok|bad), and at the end the registered template ids, the
 // sequence counter and any bytes that arrived without a successful call (stray=...).
 
 import (
+	"bytes"
 	"encoding/binary"
 	"encoding/hex"
 	"fmt"
 	"io"
 	"net"
+	"sort"
 	"strings"
 	"time"
 
+	"github.com/vmware/go-ipfix/pkg/entities"
 	"github.com/vmware/go-ipfix/pkg/exporter"
 )
 
@@ -132,27 +139,90 @@ func (p *peer) drain() []byte {
 	return out
 }
 
+// histEvent is one event of a history: a SendSet on a new (obj < 0) or an earlier set object
+// after some operations, or a wait for the template refresh.
+type histEvent struct {
+	wait bool
+	obj  int
+	ops  []setOp
+}
+
+func parseHist(rest []string) []histEvent {
+	var evs []histEvent
+	for len(rest) > 0 {
+		switch rest[0] {
+		case "S":
+			var ops []setOp
+			ops, rest = parseSetOps(rest[1:])
+			evs = append(evs, histEvent{obj: -1, ops: ops})
+		case "C":
+			var ops []setOp
+			k := atoi(rest[1])
+			ops, rest = parseSetOps(rest[2:])
+			evs = append(evs, histEvent{obj: k, ops: ops})
+		case "W":
+			evs = append(evs, histEvent{wait: true})
+			rest = rest[1:]
+		default:
+			panic("bad history token " + rest[0])
+		}
+	}
+	return evs
+}
+
+// runHist runs one history; a history that waits for the template refresh is run again when
+// the machine was too slow for the timing to be meaningful.
 func runHist(toks []string) string {
+	out, ok := "", false
+	for try := 0; try < 4 && !ok; try++ {
+		out, ok = runHistOnce(toks)
+	}
+	return out
+}
+
+func runHistOnce(toks []string) (string, bool) {
 	proto, obs, seq0, mode := toks[0], uint32(atou(toks[1])), uint32(atou(toks[2])), toks[3]
-	rest := toks[4:]
+	evs := parseHist(toks[4:])
+	refresh := uint32(0) // the default (600 s): no refresh during the case
+	for _, ev := range evs {
+		if ev.wait {
+			refresh = 1
+		}
+	}
 	p, addr := newPeer(proto)
+	tInit := time.Now()
 	ep, err := exporter.InitExportingProcess(exporter.ExporterInput{
 		CollectorAddress: addr, CollectorProtocol: proto, ObservationDomainID: obs,
-		CheckConnInterval: time.Hour,
+		CheckConnInterval: time.Hour, TempRefTimeout: refresh,
 	})
 	if err != nil {
 		panic(err)
 	}
 	p.ready()
 	ep.VerifSetSeq(seq0)
+	timely := true
 	var out []string
-	for len(rest) > 0 {
-		if rest[0] != "S" {
-			panic("bad history token " + rest[0])
+	var sets []entities.Set
+	ctx := &objCtx{}
+	for _, ev := range evs {
+		if ev.wait {
+			o, ok := waitRefresh(p, ep, tInit, mode)
+			timely = timely && ok
+			out = append(out, o)
+			continue
 		}
-		var ops []setOp
-		ops, rest = parseSetOps(rest[1:])
-		set, _ := buildSet(ops)
+		var set entities.Set
+		if ev.obj < 0 {
+			set = entities.NewSet(false)
+			sets = append(sets, set)
+		} else if ev.obj < len(sets) {
+			set = sets[ev.obj]
+		} else {
+			set = entities.NewSet(false)
+		}
+		for _, o := range ev.ops {
+			applyOpCtx(ctx, set, o, "")
+		}
 		res, n := "", 0
 		t0 := time.Now().Unix()
 		func() {
@@ -184,6 +254,9 @@ func runHist(toks []string) string {
 		}
 		out = append(out, res+" w="+w+" t="+tk)
 	}
+	if refresh != 0 && time.Since(tInit) > 1900*time.Millisecond {
+		timely = false // the second tick may have fired
+	}
 	ids := ep.VerifTemplateIDs()
 	idl := make([]string, len(ids))
 	for i, id := range ids {
@@ -197,7 +270,63 @@ func runHist(toks []string) string {
 	ep.CloseConnToCollector()
 	stray := p.drain()
 	out = append(out, fmt.Sprintf("tpls=%s seq=%d stray=%s", tp, seq, ShowBytes(stray)))
-	return strings.Join(out, " ")
+	return strings.Join(out, " "), timely
+}
+
+// waitRefresh reads what the refresh goroutine of a UDP exporter (TempRefTimeout = 1 s) sends
+// at its first tick: one message per registered template, in the (random) order of the map.
+// Reported sorted by their bytes, export time checked and zeroed: "f=<k> w=.. .. t=ok|bad|-".
+// Not timely: the history before the wait took so long that the tick may already have fired.
+func waitRefresh(p *peer, ep *exporter.ExportingProcess, tInit time.Time, mode string) (string, bool) {
+	timely := time.Since(tInit) < 850*time.Millisecond
+	want := len(ep.VerifTemplateIDs())
+	var msgs [][]byte
+	if p.proto == "udp" {
+		deadline := tInit.Add(1850 * time.Millisecond)
+		buf := make([]byte, 70000)
+		for time.Now().Before(deadline) {
+			p.udp.SetReadDeadline(deadline)
+			k, _, err := p.udp.ReadFromUDP(buf)
+			if err != nil {
+				break
+			}
+			msgs = append(msgs, append([]byte(nil), buf[:k]...))
+			if len(msgs) >= want {
+				// anything else the same tick sends follows within microseconds
+				deadline = time.Now().Add(60 * time.Millisecond)
+				if lim := tInit.Add(1900 * time.Millisecond); deadline.After(lim) {
+					deadline = lim
+				}
+			}
+		}
+		if want == 0 {
+			// nothing registered: nothing may arrive around the tick
+		}
+	}
+	t1 := time.Now().Unix()
+	tk := "-"
+	for _, b := range msgs {
+		if tk == "-" {
+			tk = "ok"
+		}
+		if len(b) >= 8 {
+			et := int64(binary.BigEndian.Uint32(b[4:8]))
+			if et < tInit.Unix() || et > t1 {
+				tk = "bad"
+			}
+			copy(b[4:8], []byte{0, 0, 0, 0})
+		} else {
+			tk = "bad"
+		}
+	}
+	sort.Slice(msgs, func(i, j int) bool { return bytes.Compare(msgs[i], msgs[j]) < 0 })
+	var sb strings.Builder
+	fmt.Fprintf(&sb, "f=%d", len(msgs))
+	for _, b := range msgs {
+		sb.WriteString(" w=" + showWire(mode, b))
+	}
+	sb.WriteString(" t=" + tk)
+	return sb.String(), timely
 }
 
 // replayHist runs the replay lines of a history property.
